@@ -45,6 +45,7 @@ PF = gen.Profile(
     teams=True,
     leaves=True,
     starts=STARTS,
+    start_tod=True,
 )
 PF_SHORT = replace(PF, durs=[(2, "d"), (3, "d"), (5, "d"), (1, "w")], alap_project=False, max_slots=40, leaves=False)
 PF_LONG = replace(PF, resolutions=[60], durs=[(1, "y"), (2, "y"), (3, "y"), (14, "m"), (60, "w")], max_tasks=5, max_res=2,
